@@ -341,6 +341,18 @@ def _reduce(x, kind, dim, keepdim):
 
 
 def _call(c: ast.Call, ev, t: str):
+    out = _call_impl(c, ev, t)
+    f = c.func
+    if isinstance(f, ast.Attribute) and f.attr.endswith("_") and not f.attr.endswith("__") and _is_arr(out):
+        # an in-place operation cannot grow its receiver: `e.masked_fill_(mask, v)` with a mask larger than e raises where the
+        # out-of-place form broadcasts
+        recv = ev(f.value)
+        if _is_arr(recv) and recv.shape != out.shape:
+            raise ValueError(f"output with shape {list(recv.shape)} doesn't match the broadcast shape {list(out.shape)}")
+    return out
+
+
+def _call_impl(c: ast.Call, ev, t: str):
     name = call_name(c)
     f = c.func
     # torch.<fn>(x, ...) forms
@@ -549,6 +561,16 @@ def _call(c: ast.Call, ev, t: str):
         out = np.array(_as_exact(x), dtype=object, copy=True)
         out[mb] = flat[: int(mb.sum())]
         return out
+    if m == "unique_consecutive" and x.ndim == 1 and not c.args:
+        (rc,) = _kw(c, ev, ["return_counts"], [False])
+        vals_, cnts_ = [], []
+        for v_ in _as_exact(x).tolist():
+            if vals_ and vals_[-1] == v_:
+                cnts_[-1] += 1
+            else:
+                vals_.append(v_)
+                cnts_.append(1)
+        return (frac_array(vals_), frac_array(cnts_)) if rc else frac_array(vals_)
     if m == "sort":
         dim, desc = _kw(c, ev, ["dim", "descending"], [-1, False])
         a_ = _axis(_int(dim), x.ndim)
